@@ -47,6 +47,10 @@ type GateScript struct {
 
 	MethodHdr string   `json:"method_hdr"` // none | ok | wrong | case
 	NameHdr   string   `json:"name_hdr"`   // none | ok | wrong | case | other
+	// DupName: behind its name (tools/call, prompts/get) or uri (resources/read) the params carry a member whose
+	// name differs from it only in letter case and whose value names something else that exists ("Name":"other").
+	// Member names are case-sensitive: that member is an unknown one and changes nothing.
+	DupName bool `json:"dup_name,omitempty"`
 	Tool      string   `json:"tool"`
 	Nodes     []Node   `json:"nodes"`
 	ParamHdr  []string `json:"param_hdr"` // per annotated leaf: none | ok | b64 | plain | wrong | case | badb64 | b64wrong | stray
@@ -295,6 +299,7 @@ func genGates(rt *rapid.T) GateScript {
 	leaves := annotated(s.Nodes)
 	s.ParamHdr = make([]string, len(leaves))
 	mirrored := s.Modern || rapid.IntRange(0, 3).Draw(rt, "legacy_with_mcp_headers") == 0
+	s.DupName = rapid.IntRange(0, 4).Draw(rt, "dup_name") == 0
 	if mirrored {
 		s.MethodHdr, s.NameHdr = "ok", "ok"
 		if broken["method"] {
@@ -409,10 +414,19 @@ func (s *GateScript) body(pad int) []byte {
 	switch s.RPC {
 	case "tools/call":
 		params = append(params, fmt.Sprintf(`"name":%s`, jsonString(s.Tool)), `"arguments":`+rawArgs(s.Nodes))
+		if s.DupName {
+			params = append(params, fmt.Sprintf(`"Name":%q`, otherTool))
+		}
 	case "prompts/get":
 		params = append(params, fmt.Sprintf(`"name":%q`, promptName))
+		if s.DupName {
+			params = append(params, `"NAME":"another-prompt"`)
+		}
 	case "resources/read":
 		params = append(params, fmt.Sprintf(`"uri":%q`, resourceURI))
+		if s.DupName {
+			params = append(params, `"URI":"file:///another"`)
+		}
 	}
 	return []byte(fmt.Sprintf(`{"jsonrpc":"2.0","id":1,"method":%q,"params":{%s}}`, s.RPC, strings.Join(params, ",")))
 }
@@ -596,9 +610,19 @@ func judge(s *GateScript, body []byte, limit int64, h http.Header) []violation {
 			Arguments map[string]json.RawMessage `json:"arguments"`
 		} `json:"params"`
 	}
-	if err := json.Unmarshal(body, &msg); err != nil {
+	// (member names are matched exactly: encoding/json would fold "Name" onto "name")
+	var outer struct {
+		Method string                     `json:"method"`
+		Params map[string]json.RawMessage `json:"params"`
+	}
+	if err := json.Unmarshal(body, &outer); err != nil {
 		panic("judge: own body does not parse: " + err.Error())
 	}
+	msg.Method = outer.Method
+	json.Unmarshal(outer.Params["_meta"], &msg.Params.Meta)
+	json.Unmarshal(outer.Params["name"], &msg.Params.Name)
+	json.Unmarshal(outer.Params["uri"], &msg.Params.URI)
+	json.Unmarshal(outer.Params["arguments"], &msg.Params.Arguments)
 	metaVer, _ := msg.Params.Meta["io.modelcontextprotocol/protocolVersion"].(string)
 	if hasPV && !slices.Contains(supported, pv) {
 		v = append(v, violation{"version-unsupported", 400, nil, false})
